@@ -12,6 +12,7 @@ func init() { register("C19", checkC19) }
 
 func checkC19(cx *Ctx, r *Report) {
 	w, fx := cx.W, cx.Fx
+	cx.checkContextKeys(r)
 	cx.checkRequestNotRewritten(r)
 	// the issuer a reply states is the one derived for this request: the metadata document served is built from this
 	// request's context, not kept from a request that arrived for another host (shared with C11)
